@@ -133,6 +133,7 @@ Hit(r) == /\ r.val # Invalid
           /\ UNCHANGED cache
 
 \* a miss plans the operation; the LRU may drop any entries to make room (nondeterministic eviction).
+\* (A traced request - repaired engine - plans afresh and bypasses the cache: a Miss whose entry is evicted at once.)
 \* Two concurrent requests for one key may both miss (no single-flight in getCachedPlan): the later Add wins.
 Miss(r) == /\ r.val # Invalid
            /\ LET e == [key |-> Key(r), plan |-> PlanOf(opts, Norm(r)), baked |-> Ctx(r)]
